@@ -8,6 +8,9 @@ package main
 //   - every comparison (operator and operands, in source order) inside the anchored decision functions
 //   - the call order inside computeConsolidation / computeSpotToSpotConsolidation / filterOutSameInstanceType /
 //     RemoveInstanceTypeOptionsByPriceAndMinValues / validateCommand / SimulateScheduling
+//   - every guard of validateCommand with what it returns (so that the presence, the polarity and the ARGUMENT ORDER
+//     of the instanceTypesAreSubset / requirementsAreSubset calls are facts) and the statement skeleton of
+//     requirementsAreSubset (what is ranged over, which side `Get` is called on, the size comparison)
 
 import (
 	"fmt"
@@ -53,6 +56,9 @@ func init() {
 		g.c06Cmps(dis, "filterOutSameInstanceType", "sameTypeCmps")
 		g.c06Cmps(dis, "validation.validateCommand", "validateCommandCmps")
 		g.c06Cmps(dis, "instanceTypesAreSubset", "subsetCmps")
+		g.c06Cmps(dis, "requirementsAreSubset", "reqSubsetCmps")
+		g.c06Guards(dis, "validation.validateCommand", "validateCommandGuards")
+		g.c06Skeleton(dis, "requirementsAreSubset", "reqSubsetSkeleton")
 		g.c06Cmps(dis, "Candidate.IsEmpty", "isEmptyCmps")
 		g.c06Cmps(dis, "Command.Decision", "decisionCmps")
 		g.c06Cmps(dis, "resolveNodePrice", "resolveNodePriceCmps")
@@ -66,7 +72,7 @@ func init() {
 		g.callSeq(c06Group, sch, "NodeClaim.RemoveInstanceTypeOptionsByPriceAndMinValues", "removeByPriceCalls",
 			[]string{"Available", "WorstLaunchPrice", "SatisfiesMinValues"})
 		g.callSeq(c06Group, dis, "validation.validateCommand", "validateCommandCalls",
-			[]string{"SimulateScheduling", "AllNonPendingPodsScheduled", "instanceTypesAreSubset"})
+			[]string{"SimulateScheduling", "AllNonPendingPodsScheduled", "instanceTypesAreSubset", "requirementsAreSubset"})
 		g.callSeq(c06Group, dis, "ConsolidationValidator.isValid", "isValidCalls",
 			[]string{"After", "validateCommand"})
 		g.callSeq(c06Group, dis, "SimulateScheduling", "simulateSchedulingCalls",
@@ -113,6 +119,143 @@ func (g *gen) c06Cmps(pkgPath, fn, lean string) {
 			b.WriteString(",")
 		}
 		fmt.Fprintf(b, "\n  %s", leanStr(s))
+	}
+	b.WriteString("]\n\n")
+}
+
+// c06Return renders a return statement: call results keep the callee only (`return NewFooError(…)`), everything else
+// is printed as written (`return nil`, `return false`).
+func c06Return(rs *ast.ReturnStmt) string {
+	var parts []string
+	for _, e := range rs.Results {
+		if ce, ok := e.(*ast.CallExpr); ok {
+			parts = append(parts, exprString(ce.Fun)+"(…)")
+		} else {
+			parts = append(parts, types.ExprString(e))
+		}
+	}
+	if len(parts) == 0 {
+		return "return"
+	}
+	return "return " + strings.Join(parts, ", ")
+}
+
+// c06Guards emits every `if` of the function in source order as "<condition> => <last statement of its body>", and
+// the function's final statement as "end => …".  The condition is printed in full, so a call inside it is pinned with
+// its polarity and the order of its arguments.
+func (g *gen) c06Guards(pkgPath, fn, lean string) {
+	_, fd := g.findFunc(pkgPath, fn)
+	if fd == nil {
+		return
+	}
+	last := func(b *ast.BlockStmt) string {
+		if b == nil || len(b.List) == 0 {
+			return "(empty)"
+		}
+		switch s := b.List[len(b.List)-1].(type) {
+		case *ast.ReturnStmt:
+			return c06Return(s)
+		case *ast.BranchStmt:
+			return s.Tok.String()
+		default:
+			return "(falls through)"
+		}
+	}
+	var out []string
+	ast.Inspect(fd.Body, func(n ast.Node) bool {
+		if is, ok := n.(*ast.IfStmt); ok {
+			txt := types.ExprString(is.Cond) + " => " + last(is.Body)
+			if is.Else != nil {
+				txt += " (has else)"
+			}
+			out = append(out, txt)
+		}
+		return true
+	})
+	out = append(out, "end => "+last(fd.Body))
+	b := g.out(c06Group)
+	fmt.Fprintf(b, "/-- the guards of `%s.%s` (%s) in source order, each with the statement its body ends in -/\ndef %s : List String := [", pkgPath, fn, g.pos(fd.Pos()), lean)
+	for i, s := range out {
+		if i > 0 {
+			b.WriteString(",")
+		}
+		fmt.Fprintf(b, "\n  %s", leanStr(s))
+	}
+	b.WriteString("]\n\n")
+}
+
+// c06Skeleton emits the statements of a (small) function in source order: `for k, v := range X`, assignments,
+// `if cond`, returns.  Anything else is printed as "(other statement)" so that an unexpected shape shows.
+func (g *gen) c06Skeleton(pkgPath, fn, lean string) {
+	_, fd := g.findFunc(pkgPath, fn)
+	if fd == nil {
+		return
+	}
+	var out []string
+	var walk func(list []ast.Stmt)
+	walk = func(list []ast.Stmt) {
+		for _, st := range list {
+			switch s := st.(type) {
+			case *ast.RangeStmt:
+				k, v := "_", "_"
+				if s.Key != nil {
+					k = types.ExprString(s.Key)
+				}
+				if s.Value != nil {
+					v = types.ExprString(s.Value)
+				}
+				out = append(out, fmt.Sprintf("for %s, %s := range %s", k, v, types.ExprString(s.X)))
+				walk(s.Body.List)
+			case *ast.AssignStmt:
+				var l, r []string
+				for _, e := range s.Lhs {
+					l = append(l, types.ExprString(e))
+				}
+				for _, e := range s.Rhs {
+					r = append(r, types.ExprString(e))
+				}
+				out = append(out, strings.Join(l, ", ")+" "+s.Tok.String()+" "+strings.Join(r, ", "))
+			case *ast.IfStmt:
+				out = append(out, "if "+types.ExprString(s.Cond))
+				walk(s.Body.List)
+				if s.Else != nil {
+					out = append(out, "else")
+					if eb, ok := s.Else.(*ast.BlockStmt); ok {
+						walk(eb.List)
+					} else {
+						out = append(out, "(other statement)")
+					}
+				}
+			case *ast.ReturnStmt:
+				out = append(out, c06Return(s))
+			default:
+				out = append(out, "(other statement)")
+			}
+		}
+	}
+	walk(fd.Body.List)
+	// the parameter names, in order (the model's `lhs` / `rhs`)
+	var params []string
+	for _, f := range fd.Type.Params.List {
+		for _, n := range f.Names {
+			params = append(params, n.Name)
+		}
+	}
+	b := g.out(c06Group)
+	fmt.Fprintf(b, "/-- the statements of `%s.%s(%s)` (%s) in source order -/\ndef %s : List String := [", pkgPath, fn, strings.Join(params, ", "), g.pos(fd.Pos()), lean)
+	for i, s := range out {
+		if i > 0 {
+			b.WriteString(",")
+		}
+		fmt.Fprintf(b, "\n  %s", leanStr(s))
+	}
+	b.WriteString("]\n")
+	fmt.Fprintf(b, "def %sParams : List String := [", lean)
+	for i, s := range params {
+		if i > 0 {
+			b.WriteString(", ")
+		}
+		b.WriteString(leanStr(s))
 	}
 	b.WriteString("]\n\n")
 }
